@@ -2164,3 +2164,25 @@ func isInitCallee(fn *ssa.Function) bool {
 	}
 	return false
 }
+
+// bitEq: identity of two values of type t, expanded over struct fields and small arrays down to
+// scalars (where it is SMT equality).
+func (c *Ctx) bitEq(t types.Type, a, b string) string {
+	switch tt := t.Underlying().(type) {
+	case *types.Struct:
+		var parts []string
+		for i := 0; i < tt.NumFields(); i++ {
+			parts = append(parts, c.bitEq(tt.Field(i).Type(), c.fieldSel(t, i, a), c.fieldSel(t, i, b)))
+		}
+		return and(parts...)
+	case *types.Array:
+		if tt.Len() <= 8 {
+			var parts []string
+			for i := int64(0); i < tt.Len(); i++ {
+				parts = append(parts, c.bitEq(tt.Elem(), fmt.Sprintf("(select %s %d)", a, i), fmt.Sprintf("(select %s %d)", b, i)))
+			}
+			return and(parts...)
+		}
+	}
+	return eq(a, b)
+}
